@@ -276,7 +276,45 @@ func convFacts() {
 	}
 }
 
+// returnFacts prints the number of return statements of every exported Stream method and of the
+// stream-level helpers: `returns\t<func>\t<n>`. A new early exit (a fast path that skips the read or
+// the re-arming of Kind) changes the count.
+func returnFacts() {
+	file := "src/storage/rlp/decode.go"
+	fset := token.NewFileSet()
+	f, err := parser.ParseFile(fset, file, nil, 0)
+	if err != nil {
+		fmt.Fprintln(os.Stderr, err)
+		os.Exit(1)
+	}
+	for _, d := range f.Decls {
+		fd, ok := d.(*ast.FuncDecl)
+		if !ok || fd.Body == nil || fd.Recv == nil || len(fd.Recv.List) != 1 {
+			continue
+		}
+		t := fd.Recv.List[0].Type
+		if st, ok := t.(*ast.StarExpr); ok {
+			t = st.X
+		}
+		if id, ok := t.(*ast.Ident); !ok || id.Name != "Stream" {
+			continue
+		}
+		n := 0
+		ast.Inspect(fd.Body, func(x ast.Node) bool {
+			if _, ok := x.(*ast.FuncLit); ok {
+				return false
+			}
+			if _, ok := x.(*ast.ReturnStmt); ok {
+				n++
+			}
+			return true
+		})
+		fmt.Printf("returns\tStream.%s\t%d\n", fd.Name.Name, n)
+	}
+}
+
 func main() {
+	returnFacts()
 	convFacts()
 	stateFacts()
 	poolFacts()
